@@ -1,6 +1,6 @@
 (* C07 — Base58, Base58Check and bech32 are exact, strict, side-effect-free inverses.
    Only statements; every proof is `exact <lemma proved elsewhere>`. *)
-From BU Require Import Lib.Bytes Lib.Slice Base58.Base58 Base58.Base58Proofs Bech32.Bech32 Bech32.Bech32Proofs Bech32.PurityModel Bech32.Purity Bech32.ConvertBitsProofs Gen.AppendSites Gen.Kernels Tie.KernelsTie.
+From BU Require Import Lib.Bytes Lib.Slice Base58.Base58 Base58.Base58Proofs Base58.Base58Lits Gen.Xbase58 Bech32.Bech32 Bech32.Bech32Proofs Bech32.Bip173Spec Bech32.Bip173Proofs Bech32.PurityModel Bech32.Purity Bech32.ConvertBitsProofs Gen.AppendSites Gen.Kernels Tie.KernelsTie.
 
 (* Decode after Encode is the identity on every byte string *)
 Theorem C07_base58_decode_encode : forall b, Bytes b -> Base58.decode (Base58.encode b) = b.
@@ -22,6 +22,13 @@ Theorem C07_base58_ranges : forall x, Forall (fun c => In c alphabet) (Base58.en
 Proof. intro x. split; [exact (encode_alphabet x) | exact (decode_bytes x)]. Qed.
 Print Assumptions C07_base58_ranges.
 
+(* leading zero bytes correspond to leading '1' characters (idx0 = '1'), in both directions *)
+Theorem C07_base58_leading_zeros : forall b s, Bytes b -> Forall (fun c => In c alphabet) s ->
+  count_leading idx0 (Base58.encode b) = count_leading 0 b /\
+  count_leading 0 (Base58.decode s) = count_leading idx0 s.
+Proof. exact leading_zeros. Qed.
+Print Assumptions C07_base58_leading_zeros.
+
 Theorem C07_check_roundtrip : forall input version,
   Bytes input -> version < 256 -> check_decode (check_encode input version) = Ok (input, version).
 Proof. exact check_roundtrip. Qed.
@@ -32,6 +39,13 @@ Theorem C07_check_accept_iff : forall s payload version,
   exists ck, Base58.decode s = (version :: payload) ++ ck /\ length ck = 4%nat /\ ck = checksum (version :: payload).
 Proof. exact check_accept_iff. Qed.
 Print Assumptions C07_check_accept_iff.
+
+(* the integer literals of base58.Decode / checksum / CheckEncode / CheckDecode are the ones the model writes out *)
+Theorem C07_base58_literals_as_modelled :
+  lits_Decode = [0;1;1;0;255;0]%Z /\ lits_checksum = [4]%Z /\
+  lits_CheckEncode = [0;1;4]%Z /\ lits_CheckDecode = [5;0;0;4;4;4;0;1;4]%Z.
+Proof. exact tie_lits_base58. Qed.
+Print Assumptions C07_base58_literals_as_modelled.
 
 (* ---------------- bech32 ---------------- *)
 (* Decode(Encode(hrp, data)) = (hrp, data) for every lower-case printable hrp and 5-bit data within the 90-character limit *)
@@ -68,6 +82,49 @@ Theorem C07_bech32_rejects_foreign_char : forall s c,
   In c s -> (c < 33 \/ 126 < c) -> forall r, Bech32.decode s <> Ok r.
 Proof. exact bech32_rejects_foreign_char. Qed.
 Print Assumptions C07_bech32_rejects_foreign_char.
+
+(* agreement with BIP173 (Bech32/Bip173Spec.v is written from the BIP text with its own literals: generator
+   words, charset, 25/5/31 shifts and masks): Encode produces the BIP's string for every hrp and 5-bit data *)
+Theorem C07_bech32_encode_is_bip173 : forall hrp data, Forall (fun x => x < 32) data ->
+  Bech32.encode hrp data = Ok (bip_encode hrp data).
+Proof. exact encode_is_bip173. Qed.
+Print Assumptions C07_bech32_encode_is_bip173.
+
+(* ... and Decode accepts exactly the strings BIP173 calls valid (length, character range, single case, non-empty
+   hrp, separator, 5-bit symbols, verifying checksum), returning the (hrp, data) they stand for *)
+Theorem C07_bech32_decode_iff_bip173 : forall s hrp data,
+  Bech32.decode s = Ok (hrp, data) <-> bip_valid s hrp data.
+Proof. exact decode_iff_bip173. Qed.
+Print Assumptions C07_bech32_decode_iff_bip173.
+
+(* misplaced separator: no '1', nothing before the last '1', or fewer than six characters after it *)
+Theorem C07_bech32_rejects_misplaced_separator : forall s,
+  (forall h t, map to_lower s = h ++ 49 :: t -> ~ In 49 t -> h = [] \/ (length t < 6)%nat) ->
+  forall r, Bech32.decode s <> Ok r.
+Proof. exact rejects_misplaced_separator. Qed.
+Print Assumptions C07_bech32_rejects_misplaced_separator.
+
+(* a character outside the charset after the last separator *)
+Theorem C07_bech32_rejects_data_char_outside_charset : forall s h t c,
+  map to_lower s = h ++ 49 :: t -> ~ In 49 t -> In c t -> ~ In c Bech32.charset ->
+  forall r, Bech32.decode s <> Ok r.
+Proof. exact rejects_data_char_outside_charset. Qed.
+Print Assumptions C07_bech32_rejects_data_char_outside_charset.
+
+(* any six symbols other than the checksum *)
+Theorem C07_bech32_rejects_bad_checksum : forall hrp data ck,
+  Forall (fun x => x < 32) data -> Forall (fun x => x < 32) ck -> length ck = 6%nat ->
+  ck <> Bech32.create_checksum hrp data ->
+  forall s, map to_lower s = hrp ++ 49 :: map chr (data ++ ck) -> forall r, Bech32.decode s <> Ok r.
+Proof. exact rejects_bad_checksum. Qed.
+Print Assumptions C07_bech32_rejects_bad_checksum.
+
+(* hypotheses satisfiable / the BIP's own vectors: "a12uel5l" and "abcdef1qpzry9x8gf2tvdw0s3jn54khce6mua7lmqqqxw" *)
+Example C07_bip173_vectors :
+  bip_encode [97] [] = [97;49;50;117;101;108;53;108] /\
+  bip_encode [97;98;99;100;101;102] [0;1;2;3;4;5;6;7;8;9;10;11;12;13;14;15;16;17;18;19;20;21;22;23;24;25;26;27;28;29;30;31] =
+    [97;98;99;100;101;102;49;113;112;122;114;121;57;120;56;103;102;50;116;118;100;119;48;115;51;106;110;53;52;107;104;99;101;54;109;117;97;55;108;109;113;113;113;120;119].
+Proof. split; vm_compute; reflexivity. Qed.
 
 (* ---------------- ConvertBits ---------------- *)
 (* ConvertBits is exactly bit-list regrouping (flatten to fromBits-bit groups MSB first, re-chunk by toBits; a
